@@ -234,12 +234,17 @@ func derivedFrom(fc *FuncCtx, v ssa.Value, root string, sr *sigRoles, depth int)
 	case *ssa.Extract:
 		return derivedFrom(fc, x.Tuple, root, sr, depth+1)
 	case *ssa.Phi:
+		n := 0
 		for _, e := range x.Edges {
+			if isNilConst(Resolve(e)) {
+				continue // declared ahead of the step that fills it: nil is no other element
+			}
+			n++
 			if !derivedFrom(fc, e, root, sr, depth+1) {
 				return false
 			}
 		}
-		return true
+		return n > 0
 	case *ssa.Call:
 		scf := x.Call.StaticCallee()
 		if scf == nil {
@@ -560,10 +565,20 @@ func elementSource(p *Prog, fc *FuncCtx, v ssa.Value, sr *sigRoles, depth int) (
 	case *ssa.Index:
 		return elementSource(p, fc, x.X, sr, depth+1)
 	case *ssa.Phi:
+		n := 0
 		for _, e := range x.Edges {
+			// "no element (yet)": a variable declared ahead of the step that fills it; nil is no other element
+			// (the returns of a helper are read the same way above; a nil dereference is C09's business)
+			if isNilConst(Resolve(e)) {
+				continue
+			}
+			n++
 			if s, ok := elementSource(p, fc, e, sr, depth+1); !ok {
 				return s, false
 			}
+		}
+		if n == 0 {
+			return "nil", false
 		}
 		return "phi of allowed elements", true
 	}
